@@ -133,7 +133,17 @@ PROPS = {
         rule=("rapid-generated (image, irreversible configuration). Non-trivial: some declared step size exceeds 1 (quantiser active) and the image is not constant. Distinct = hash of the case. "
               "Label tightness>N% records how close the observed error came to the bound."),
         assumptions=COMMON_ASSUME + ["the rounding allowance 2 + 2^(P-13) covers single-precision arithmetic of the transform chain"],
-        quick=dict(shards=16, checks=150, extra=[], timeout=900),
+        quick=dict(shards=16, checks=600, extra=[], timeout=900),
         thorough=dict(shards=16, checks=1500, extra=[], timeout=3400),
+    ),
+    "C06": dict(
+        pkg="c06",
+        technique="property-based round-trip testing (rapid) through the registered HTJ2K lossless codecs, plus complete enumeration of the bundled third-party codestreams",
+        level_text="Exploration: seeded rapid generators over FrameInfo (8/16 bits allocated, BitsStored <= allocated, 1/3 samples, signedness) x htj2k.Parameters (block 4..64, levels 0-6; nil / typed / generic) x content (all-zero blocks, sparse, full-scale noise); the 14 OpenJPH/fo-dicom fixtures are decoded and compared with their raw sources on every run; thorough adds the 80x80 size grid.",
+        level_note="Round trip through the registry codecs .201/.202; fixtures are the finite set in test-data/htj2k/interop. Trusts the Go runtime.",
+        rule=("rapid-generated (frame, FrameInfo, parameters). Non-trivial: at least one non-zero sample and >= 4 pixels (an HT code-block with a non-zero sample and >= 2 quads). Distinct = hash of the case."),
+        assumptions=COMMON_ASSUME,
+        quick=dict(shards=16, checks=250, extra=["TestQuota", "TestFixtures"], timeout=900),
+        thorough=dict(shards=16, checks=2000, extra=["TestQuota", "TestFixtures", dict(run="TestGrid", shards=16)], timeout=3400),
     ),
 }
